@@ -3,6 +3,7 @@ package reng
 import (
 	"encoding/json"
 	"fmt"
+	"io"
 	"os"
 	"path/filepath"
 	"reflect"
@@ -14,6 +15,7 @@ import (
 
 	"github.com/openebs/jiva/replica"
 	"github.com/openebs/jiva/types"
+	"github.com/sirupsen/logrus"
 	"github.com/openebs/sparse-tools/sparse"
 
 	"verif/harness/internal/fsx"
@@ -55,6 +57,65 @@ type Engine struct {
 }
 
 var holeOnce sync.Once
+
+// windowHook lets a monitor act at a point inside a jiva call that the code
+// itself announces in its log (e.g. between the extent scan and the map merge
+// of UpdateLUNMap) without touching the source. Fatal/panic entries are copied
+// to stderr so that a dying worker leaves a trace although normal log output
+// is discarded.
+type windowHook struct {
+	mu  sync.Mutex
+	msg string
+	cb  func()
+}
+
+var WinHook = &windowHook{}
+
+func (h *windowHook) Levels() []logrus.Level { return logrus.AllLevels }
+func (h *windowHook) Fire(en *logrus.Entry) error {
+	if en.Level <= logrus.FatalLevel {
+		fmt.Fprintf(os.Stderr, "level=fatal msg=%q\n", en.Message)
+		return nil
+	}
+	h.mu.Lock()
+	cb := h.cb
+	if cb != nil && en.Message == h.msg {
+		h.cb = nil
+	} else {
+		cb = nil
+	}
+	h.mu.Unlock()
+	if cb != nil {
+		cb()
+	}
+	return nil
+}
+
+// Arm registers cb to run once, synchronously, when msg is logged.
+func (h *windowHook) Arm(msg string, cb func()) {
+	h.mu.Lock()
+	h.msg, h.cb = msg, cb
+	h.mu.Unlock()
+}
+
+// Disarm returns true if the callback never ran.
+func (h *windowHook) Disarm() bool {
+	h.mu.Lock()
+	defer h.mu.Unlock()
+	pending := h.cb != nil
+	h.cb = nil
+	return pending
+}
+
+var logOnce sync.Once
+
+// QuietLogs discards jiva's log output but keeps hooks firing.
+func QuietLogs() {
+	logOnce.Do(func() {
+		logrus.SetOutput(io.Discard)
+		logrus.AddHook(WinHook)
+	})
+}
 
 // StartHolePuncher starts the real CreateHoles goroutine once per process.
 func StartHolePuncher() {
@@ -140,6 +201,7 @@ func (e *Engine) Destroy() {
 		e.Srv.Close()
 	}
 	types.ShouldPunchHoles = false
+	types.MaxChainLength = 0
 	os.RemoveAll(e.Dir)
 	os.RemoveAll(e.Dir + ".roc")
 }
@@ -215,7 +277,7 @@ func (e *Engine) readCheck(off, length int64, why string) {
 func (e *Engine) lastMut() string {
 	for i := len(e.Log) - 1; i >= 0; i-- {
 		switch e.Log[i].K {
-		case "snapshot", "remove", "rawremove", "revert", "reopen", "reload", "resize":
+		case "snapshot", "remove", "rawremove", "revert", "reopen", "reload", "resize", "lunmap":
 			return e.Log[i].K
 		}
 	}
@@ -405,6 +467,50 @@ func (e *Engine) Reload() {
 	if e.Preload {
 		e.M.thinPreload()
 	}
+}
+
+// LunMap replays the rebuild bookkeeping of a freshly synced replica:
+// reload without preload, then UpdateLUNMap, with foreground writes landing
+// before the extent scan and in the window between scan and merge.
+func (e *Engine) LunMap() {
+	if e.Dead {
+		return
+	}
+	op := e.rec(Op{K: "lunmap"})
+	e.nReopen++
+	e.Srv.SetPreload(false)
+	err := e.Srv.Reload()
+	e.Srv.SetPreload(e.Preload)
+	if err != nil {
+		op.Err = err.Error()
+		e.Fail("C12", "reload:error", err.Error())
+		return
+	}
+	e.M.Punch = true
+	e.M.PunchEver = true
+	for i := e.R.Intn(3); i > 0 && !e.Dead; i-- {
+		o, l, _ := e.GenRange()
+		e.Write(o, l)
+	}
+	nwin := e.R.Range(0, 3)
+	WinHook.Arm("Read extents successful", func() {
+		for i := 0; i < nwin && !e.Dead; i++ {
+			o, l, _ := e.GenRange()
+			e.Write(o, l)
+			e.Res.Count("writes_in_lunmap_window", 1)
+		}
+	})
+	err = e.Srv.UpdateLUNMap()
+	if WinHook.Disarm() {
+		e.Res.Count("lunmap_window_not_reached", 1)
+	}
+	e.Res.Count("lunmap_updates", 1)
+	if err != nil {
+		e.rec(Op{K: "lunmap-result", Err: err.Error()})
+		e.Fail("C01", "lunmap:error", err.Error())
+		return
+	}
+	e.M.thinPreload()
 }
 
 func (e *Engine) Resize(size int64, how string) {
